@@ -177,7 +177,13 @@ func treadmillAdapter(c string, j Job) *tmAdapter {
 		sys := kvSysFromJob(jj).(*KVSys[int, int])
 		sys.NoCount = true
 		a := sys.newBox().a
-		return &tmAdapter{name: sys.Name(), ins: func(k int) { a.put(k, -k) }, del: func(k int) { a.remove(k) },
+		ins := func(k int) { a.put(k, -k) }
+		if j.p("revalue", 0) == 1 {
+			// every key is given two other values first: "same key, new value" Puts, each of which deletes an
+			// inverse entry (a map that re-organises itself after k deletions meets the k-th inside such a Put)
+			ins = func(k int) { a.put(k, -k-5000000); a.put(k, -k-7000000); a.put(k, -k) }
+		}
+		return &tmAdapter{name: sys.Name(), ins: ins, del: func(k int) { a.remove(k) },
 			observe: func(live []int, future int) *Viol {
 				if a.size() != len(live) {
 					if x := keep(viol(p("C10", "C01", "C15"), "mismatch", "Size() = %d, %d pairs are live", a.size(), len(live))); x != nil {
